@@ -5,6 +5,7 @@ import (
 	"encoding/json"
 	"fmt"
 	"os"
+	"path/filepath"
 	"regexp"
 
 	"github.com/maruel/panicparse/v2/stack"
@@ -143,16 +144,22 @@ func c06FS(r *core.Run, c *c06Case) {
 	defer os.RemoveAll(dir)
 	rr := core.NewRand(c.Seed, 6, uint64(c.Idx))
 	l := gen.GenFS(rr, dir, &gen.FSCfg{Nested: true, Decoys: true})
-	// overlapping GOPATH roots: a second local GOPATH holding a package whose remote path lies under the first remote root's src tree
+	// overlapping GOPATH roots: a package whose remote path lies under another remote root's src tree or
+	// module cache, found through its own src tree or module cache (all four combinations).
 	if len(l.LocalGOPATHs) >= 2 {
 		lp0, lp1 := l.LocalGOPATHs[0], l.LocalGOPATHs[1]
-		_ = os.MkdirAll(lp1+"/src/inner/pkg", 0o755)
-		_ = os.WriteFile(lp1+"/src/inner/pkg/i.go", []byte("package pkg\n"), 0o644)
-		_ = os.MkdirAll(lp0+"/src/outer", 0o755)
-		_ = os.WriteFile(lp0+"/src/outer/o.go", []byte("package outer\n"), 0o644)
+		mk := func(p string) {
+			_ = os.MkdirAll(filepath.Dir(p), 0o755)
+			_ = os.WriteFile(p, []byte("package x\n"), 0o644)
+		}
+		outerKind := []string{"src", "pkg/mod"}[rr.Intn(2)]
+		innerKind := []string{"src", "pkg/mod"}[rr.Intn(2)]
+		mk(lp1 + "/" + innerKind + "/inner/pkg/i.go")
+		mk(lp0 + "/" + outerKind + "/outer/o.go")
 		l.Frames = append(l.Frames,
-			gen.FSFrame{Remote: "/rgp/src/a/src/inner/pkg/i.go", Pkg: "inner/pkg"},
-			gen.FSFrame{Remote: "/rgp/src/outer/o.go", Pkg: "outer"})
+			gen.FSFrame{Remote: "/rgp/" + outerKind + "/a.com/foo@v1.0.0/" + innerKind + "/inner/pkg/i.go", Pkg: "inner/pkg"},
+			gen.FSFrame{Remote: "/rgp/" + outerKind + "/outer/o.go", Pkg: "outer"})
+		r.Mark("overlap_kinds", outerKind+" contains "+innerKind)
 	}
 	d := l.DumpFor(rr)
 	in := d.Render()
